@@ -162,6 +162,27 @@ def main(tier):
                         ins = [x for x in ins if x] or ["2012-03-08"]
                     out, singles = run_all_one(tool, args, ins, mode)
                 execs.append(execution("%s %s" % (os.path.basename(tool), " ".join(args)), ins, out, singles))
+        # several input formats that read the same text differently (-i A -i B: the first that fits wins, for every line anew), in every
+        # reading mode of the line-oriented tools
+        amb = ["01/13/2012", "02/03/2012", "25/03/2012", "13/01/2012", "03/02/2012", "12/12/2012", "no date", "31/12/2011", "12/31/2011", "2/3/2012"]
+        fm = ["-i", "%d/%m/%Y", "-i", "%m/%d/%Y"]
+        for tool, targs in ((dconv, ["-f", "%F"]), (dadd, ["-f", "%F", "+1d"]), (dround, ["-f", "%F", "Mon"]), (dgrep, [">=2012-02-01"]), (ddiff, ["01/01/2012", "-f", "%d"])):
+            for mode_args in ([], ["-E"], ["-S"], ["-E", "-S"]):
+                if tool in (dgrep, ddiff) and mode_args:
+                    continue
+                for k in range(5 if quick else 40):
+                    n = rng.randrange(2, 7)
+                    ins = [rng.choice(amb) for _ in range(n)]
+                    a_ = fm + mode_args + (targs if tool is not ddiff else targs)
+                    a_ = ([targs[0]] + fm + targs[1:]) if tool is ddiff else (fm + mode_args + targs)
+                    out, singles = run_all_one(tool, a_, ins, "stdin")
+                    execs.append(execution("%s %s (two input formats)" % (os.path.basename(tool), " ".join(mode_args) or "lines"), ins, out, singles))
+                if not mode_args and tool in (dconv, dadd, dround):
+                    for k in range(3 if quick else 20):
+                        ins = [x for x in (rng.choice(amb) for _ in range(rng.randrange(2, 6))) if x != "no date"] or ["02/03/2012"]
+                        if tool is dconv:
+                            out, singles = run_all_one(tool, fm + targs, ins, "args")
+                            execs.append(execution("dconv args (two input formats)", ins, out, singles))
         # several zones in one process: the handle cache is keyed by name; names that are prefixes of each other, in both orders
         PAIRS = [("EST", "EST5EDT"), ("NZ", "NZ-CHAT"), ("GB", "GB-Eire"), ("MST", "MST7MDT"), ("Etc/GMT+1", "Etc/GMT+10"), ("Etc/GMT-1", "Etc/GMT-14"),
                  ("Europe/Berlin", "Europe/Berlin"), ("UTC", "UCT"), ("Asia/Kolkata", "Asia/Kathmandu"), ("America/Indiana/Knox", "America/Indiana/Knox_IN" )]
